@@ -2,6 +2,6 @@ import sys,os
 sys.path.insert(0,os.path.dirname(os.path.dirname(os.path.abspath(__file__))))
 from jobs_lib import vf,blk,other
 def jobs(tier):
-    return vf(tier,'C07')+other('C02',tier,lambda j:j.name.startswith('K-synth'))+other('C17',tier,lambda j:j.name=='rd-pack-w2-s1-be0')
+    return vf(tier,'C07')+other('C02',tier,lambda j:j.name.startswith('K-synth'))+other('C17',tier,lambda j:j.name=='rd-pack-w2-s1-be0')+blk(tier,lambda j:j.name.startswith('blockin-step'))[:2]
 CLAIM={'text':'Bounded model checking of the position bookkeeping of the real seek and read code over abstract page/packet sources: page seek lands on the right page of the right link and resets the stream/lapping state, sample seek lands exactly, packet fetch sets the position from granule positions by the documented formula, reads advance the position by the frames returned, track-only decoding carries sequence numbers.',
  'note':'Trusted: abstract page table / packet source stand for real Ogg data (whole packets only, no continued packets), contract of ov_pcm_seek_page assumed in pcm-exact. Bit-identity of the audio itself is reduced to C11 (output depends only on the packet and its predecessor) and not executed. ov_raw_seek, ov_time_seek(_page) and multi-call histories beyond one step are outside.'}
